@@ -4,6 +4,7 @@
 (* call returned or raised, the snapshot of every argument that is not documented as   *)
 (* in-place is the same before and after.  One ndjson line per invocation:             *)
 (*   {"id": k, "call": name, "opt": o, "nd": d, "lay": [{"order","contig","kind"}..],  *)
+(*    "val": [value class ..],                                                          *)
 (*    "outcome": "returned"|"raised", "pre": [snap..], "post": [snap..]}               *)
 (*   snap = {"data","base","dtype","flags"} (opaque tokens of the real argument)       *)
 (* Failing clauses are printed as "<parameter index>:<what changed>".                  *)
@@ -26,8 +27,9 @@ InCatalogue(r) ==
     /\ r.call \in FrCallNames
     /\ LET c == FrCallNamed(r.call) IN
          /\ r.opt \in c.opts /\ r.nd \in c.ndims
-         /\ Len(r.lay) = Len(c.params) /\ Len(r.pre) = Len(c.params) /\ Len(r.post) = Len(c.params)
+         /\ Len(r.lay) = Len(c.params) /\ Len(r.pre) = Len(c.params) /\ Len(r.post) = Len(c.params) /\ Len(r.val) = Len(c.params)
          /\ \A i \in DOMAIN c.params : r.lay[i].kind \in c.params[i].kinds /\ FrLayoutOK(r.lay[i], r.nd)
+                                         /\ FrValOK(c.params[i], r.lay[i], r.val[i], r.nd)
     /\ r.outcome \in {"returned", "raised"}
 
 FailingRec(r) ==
